@@ -89,6 +89,8 @@ def families(tier, seed):
     nseq = 16 if tier == 'quick' else 200
     for be in ('cudd', 'autoref'):
         out.append(dict(name=f'history sequences [{be}]', run=hc.history_sequences(seed, nseq, be), label='bounded'))
+    from contracts import optdiff as _od
+    out.append(dict(name='same results with assert statements stripped (python -O), section C07', run=_od.family('C07'), label='bounded'))
     return out
 
 
